@@ -133,6 +133,21 @@ def scenario(job):
             if what == 'snapshot':
                 views.append(obs_disk(o, sess))
             fr = o['fresh']
+            # ... and read-write, on a copy (np.memmap in r+ mode may extend a short file)
+            rw = os.path.join(store, 'rwcopy')
+            shutil.rmtree(rw, ignore_errors=True)
+            shutil.copytree(d, rw, symlinks=True)
+            try:
+                hrw = sess.darr.Array(rw, accessmode='r+')
+                v = hrw[:]
+                rwrows = sess.cfg.decode_rows([np.ascontiguousarray(v[i:i + 1]).tobytes() for i in range(len(v))])
+                del hrw, v
+                res['opens'] += 1
+                if tuple(rwrows) not in legit:
+                    res['viol'].append({'where': where, 'what': what + " (opened with accessmode='r+')",
+                                        'opened_with_rows': rwrows, 'legit': sorted(legit)})
+            except Exception:
+                pass
             if 'raises' in fr:
                 continue
             res['opened_ok'] += 1
@@ -258,6 +273,19 @@ def scenario_ragged(job):
             if what == 'snapshot':
                 views.append(robs_disk(o))
             fr = o['fresh']
+            rw = os.path.join(store, 'rwcopy')
+            shutil.rmtree(rw, ignore_errors=True)
+            shutil.copytree(d, rw, symlinks=True)
+            try:
+                hrw = sess.darr.RaggedArray(rw, accessmode='r+')
+                rwsubs = tuple(sess._decode_item(hrw[k]) for k in range(len(hrw)))
+                del hrw
+                res['opens'] += 1
+                if rwsubs not in legit:
+                    res['viol'].append({'where': where, 'what': what + " (opened with accessmode='r+')",
+                                        'opened_with_subarrays': rwsubs, 'legit': sorted(legit)})
+            except Exception:
+                pass
             if 'raises' in fr or 'error' in fr:
                 continue
             res['opened_ok'] += 1
